@@ -62,6 +62,22 @@ pub fn sweep(w: &World, users: &[String], out: &mut Vec<Value>) {
             }
         }
     }
+    // extreme arguments: a limit of u32::MAX (recorded as 2^31-1, TLC's largest integer: both exceed every store), a cursor
+    // of u64::MAX (recorded likewise), a limit of zero
+    for st in ["", "Pending", "Received"] {
+        let stj = if st.is_empty() { Value::Null } else { json!(st) };
+        let (ids, ok) = ids_of(&w.query(json!({"batches": {"start_after": Value::Null, "limit": u32::MAX, "status": stj}})));
+        out.push(json!({"kind": "batches", "store": store, "start_after": -1, "limit": 2147483647i64, "status": st, "resp": ids, "detail_ok": ok}));
+        let (ids, ok) = ids_of(&w.query(json!({"batches": {"start_after": u64::MAX, "limit": Value::Null, "status": stj}})));
+        out.push(json!({"kind": "batches", "store": store, "start_after": 2147483647i64, "limit": -1, "status": st, "resp": ids, "detail_ok": ok}));
+        let (ids, ok) = ids_of(&w.query(json!({"batches": {"start_after": Value::Null, "limit": 0, "status": stj}})));
+        out.push(json!({"kind": "batches", "store": store, "start_after": -1, "limit": 0, "status": st, "resp": ids, "detail_ok": ok}));
+    }
+    for l in [vec![], vec![u64::MAX], vec![u64::MAX, 1]] {
+        let (ids, ok) = ids_of(&w.query(json!({"batches_by_ids": {"ids": l}})));
+        let rec: Vec<i64> = l.iter().map(|x| if *x == u64::MAX { 2147483647 } else { *x as i64 }).collect();
+        out.push(json!({"kind": "by_ids", "store": store, "ids": rec, "resp": ids, "detail_ok": ok, "start_after": -1, "limit": -1, "status": ""}));
+    }
     // id lists without repetition over 0..=maxid+1, up to length 3
     let universe: Vec<u64> = (0..=(maxid as u64 + 1)).collect();
     let mut lists: Vec<Vec<u64>> = vec![vec![]];
